@@ -227,6 +227,46 @@ def traditional_clause(cl, rng, n, replay):
                 return
             if not _check_traditional(cl, h, f, A, r, "hvsrpy.hvsr_traditional.HvsrTraditional.update_peaks_bounded", dict(history=list(hist))):
                 return
+            if not _after_mask_change(cl, rng, h, f, A, r, list(hist)):
+                return
+
+
+def _after_mask_change(cl, rng, h, f, A, r, hist):
+    """the mean-curve peak is that of the mean curve of the windows accepted *now*: after the accepted set changed by a route other than a peak search
+    (a manual rejection editing the masks in place, a time-domain rejection with the object attached) the peak reported follows it"""
+    import hvsrpy
+    acc = np.flatnonzero(h.valid_window_boolean_mask & h.valid_peak_boolean_mask)
+    if len(acc) < 3:
+        return True
+    drop = int(rng.choice(acc))
+    if rng.random() < 0.5:
+        h.valid_window_boolean_mask[drop] = False
+        h.valid_peak_boolean_mask[drop] = False
+        route = "manual rejection of window %d" % drop
+    else:
+        from bounded import refproc as rp
+        recs = []
+        for w in range(len(A)):
+            ns, ew, vt, dt_ = rp.gen_window(rng, N=120, dt=0.01, scale=1.0)
+            if w == drop or not (h.valid_window_boolean_mask[w] and h.valid_peak_boolean_mask[w]):
+                ns = ns * 1e6          # the windows to be rejected carry a spike-sized amplitude
+            recs.append(rp.mk_record(ns, ew, vt, dt_))
+        hvsrpy.maximum_value_window_rejection(recs, maximum_value_threshold=1e3, normalized=False, hvsr=h)
+        route = "maximum_value_window_rejection dropping window %d" % drop
+    cl.case(("mask-change", route, tuple(hist)))
+    for dist in ("lognormal", "normal", "lognormal"):
+        mc = h.mean_curve(dist)
+        want = spec_peak(f, mc, r)
+        try:
+            g = h.mean_curve_peak(dist)
+            ok = want is not None and g[0] == want[0] and g[1] == want[1]
+        except ValueError:
+            ok = want is None
+        if not ok:
+            cl.fail("hvsrpy.hvsr_traditional.HvsrTraditional.mean_curve_peak", f"after {route} the mean-curve peak [{dist}] is not the highest local maximum of the mean curve "
+                    "of the windows accepted now, inside the stored range", signature="traditional:mcpeak-after-mask-change", range=r, required=want, history=hist)
+            return False
+    return True
 
 
 def azimuthal_clause(cl, rng, n, replay):
